@@ -156,12 +156,21 @@ def C09(tier, seed):
                       req=["C09.act.par_reduce", "C09.act.add", "C09.act.add_assign"])
         t.env.update({"ACC_MODE": "trees", "ACC_CHUNKS": 4 if tier == "quick" else 5})
         stages.append(t)
+    # long merge histories on data whose sums round, judged against the exact statistics
+    fold = mean_stage("c09fold", "C09", ["C09." + c for c in ("bound_lo", "bound_hi", "sample_mean", "sample_variance", "sample_std_dev",
+                                                                 "sample_count", "type.f32", "type.f64", "style.lfold1", "style.rfold1",
+                                                                 "style.rfold1_assign", "style.lfold7", "style.rfold7", "style.tree",
+                                                                 "t_branch", "normal_branch")], 1, shards=8)
+    stages.append(fold)
     stages[0].mc = mc
     stages[0].required |= {"C09.act.add", "C09.act.add_assign"}
     return {
         "stages": stages,
         "exhaustive": True,
-        "rule": "TLC enumerates by BFS every program of L calls (quick: L=3 for Arithmetic<f64>, L=2 for the six other flavours and "
+        "rule": "long merge histories (left / right folds of up to 300 000 (10^6) singleton states with + and +=, folds of chunks of 1..7, balanced trees) on "
+                "negative, positive and mixed-sign data whose partial sums round in f32 / f64: sample count, mean, variance, standard deviation and the interval "
+                "bounds of the merged state judged by TLC against the exact statistics of the multiset (tolerance model of C01); "
+                "TLC enumerates by BFS every program of L calls (quick: L=3 for Arithmetic<f64>, L=2 for the six other flavours and "
                 "f32; thorough: L=3 everywhere, L=4 on a reduced alphabet, plus simulated programs of 30-40 calls over 6-8 registers) "
                 "over {new, append, extend, from_iter, clone, +=, +} and the flavour-specific feeders, including rejected values, failing "
                 "bulk calls and empty operands; every pairwise merge schedule (ordered pairs, `+` and `+=`) of 4 (5) chunks incl. an empty and a large one "
